@@ -478,7 +478,13 @@ func (r *Report) rescueRenamed(haveKey map[string]bool) {
 				}
 				if tcons != cons {
 					a, b, ok := oneIdentRenamed(tcons, cons)
-					if !ok || r.W.localInScope(o.Pos, a) || !r.W.localInScope(o.Pos, b) {
+					if !ok || !r.W.localInScope(o.Pos, b) {
+						continue
+					}
+					// the old name may still denote something at the construct (the renamed local
+					// shadowed it): accepted only when that something has a different type, so that
+					// the new text cannot be the old construct with another variable put in by mistake
+					if r.W.localInScope(o.Pos, a) && r.W.sameTypeInScope(o.Pos, a, b) {
 						continue
 					}
 					whys = append(whys, fmt.Sprintf("entry written when the local %s was called %s", b, a))
